@@ -45,7 +45,7 @@ T = {
          "geometric clauses numeric with tolerance; memory safety of the unchecked accessors not decided", "DESIGN.md §5 C15"),
  "C19": ("VHelpers: exact closed forms of every exported helper; TLC checks the defining equations on them for every small integer argument tuple and prints the tuples with exact results; replay under similarity embeddings and rescaled normals",
          "irrational results compared through exact squares; six similarity embeddings incl. scales 2^-30, 1e-9, 2^30 (absolute thresholds only show far from unit scale)", "DESIGN.md §5 C19"),
- "C20": ("VAux: definition of k-nearest (KnnOK) and brute-force exact minimal enclosing sphere (Exists, Unique, Contains model-checked over every small lattice point set); Space::knn results on quarter-lattice particle sets (cubic and non-cubic boxes, all k) validated by VAuxTrace with exact distances; Welzl = minimal sphere, Epos6 contains and is not smaller",
+ "C20": ("VAux: definition of k-nearest (KnnOK) and brute-force exact minimal enclosing sphere (Exists, Unique, Contains model-checked over every small lattice point set); Space::knn results on quarter-lattice particle sets (cubic and non-cubic boxes, all k) validated by VAuxTrace with exact distances; Welzl = minimal sphere, Epos6 contains and is not smaller; Welzl's recursion transcribed in exact arithmetic (VAux.Welzl): for every order of the points it never reaches a degenerate boundary set and returns the minimal sphere",
          "VKnn: the ring search of Space::knn as a state machine (skip and termination bounds, any order within a ring) model-checked over every particle set of small non-cubic grids; knn conformance on lattice particle sets; sphere tolerance 1e-7 relative; scales 2^-30..2^30", "DESIGN.md §5 C20"),
 }
 
